@@ -421,8 +421,58 @@ func c01CLI(e *Env, c *c01Case, dir string, add func(kind, sig, what, chk string
 		add("failing-input", "cli-apply-fails", fmt.Sprintf("atlas schema apply fails: %s\ncurrent:\n%s\ndesired:\n%s", trunc(o.Stderr+o.Stdout, 400), strings.Join(c.Current, ";\n"), strings.Join(c.Desired, ";\n")), "Props.C01 CLI")
 		return
 	}
+	c01CLINoDev(e, c, cdir, add)
 	o2 := runAtlas(e, cdir, nil, "schema", "diff", "--from", url, "--to", "file://desired.sql", "--dev-url", "sqlite://dev?mode=memory")
 	if o2.Code != 0 || !strings.Contains(o2.Stdout, "Schemas are synced") {
 		add("failing-input", "cli-not-synced", fmt.Sprintf("after `schema apply`, `schema diff` reports (exit %d):\n%s\ncurrent:\n%s\ndesired:\n%s", o2.Code, trunc(o2.Stdout+o2.Stderr, 500), strings.Join(c.Current, ";\n"), strings.Join(c.Desired, ";\n")), "Props.C01 CLI")
+	}
+}
+
+// c01CLINoDev: the desired state as an HCL document and NO dev database (`schema apply --to file://x.hcl`
+// as it is commonly run), and `schema diff` between two live databases: the database ends up as the desired
+// one (independent pragma catalogue), and two databases that differ are never reported as synced.
+func c01CLINoDev(e *Env, c *c01Case, cdir string, add func(kind, sig, what, chk string)) {
+	desp, livep := filepath.Join(cdir, "des.sqlite"), filepath.Join(cdir, "live2.sqlite")
+	if err := execSQL(desp, c.Desired...); err != nil {
+		return
+	}
+	if err := execSQL(livep, append(append([]string{}, c.Current...), c.Rows...)...); err != nil {
+		return
+	}
+	ctxText := func() string {
+		return fmt.Sprintf("current:\n%s\ndesired:\n%s", strings.Join(c.Current, ";\n"), strings.Join(c.Desired, ";\n"))
+	}
+	cat := func(p string) ([]string, error) {
+		db, err := openSQLite(p, false)
+		if err != nil {
+			return nil, err
+		}
+		defer db.Close()
+		return catalog(db)
+	}
+	want, err := cat(desp)
+	if err != nil {
+		return
+	}
+	before, _ := cat(livep)
+	// two live databases: "synced" only if they are the same
+	d := runAtlas(e, cdir, nil, "schema", "diff", "--from", "sqlite://live2.sqlite", "--to", "sqlite://des.sqlite")
+	if d.Code == 0 && strings.Contains(d.Stdout, "Schemas are synced") && catDiff(before, want) != "" {
+		add("failing-input", "cli-synced-but-different", fmt.Sprintf("`schema diff` of two live databases (no dev database) reports them as synced, they differ: %s\n%s", catDiff(before, want), ctxText()), "Props.C01 CLI (no dev database)")
+	}
+	in := runAtlas(e, cdir, nil, "schema", "inspect", "--url", "sqlite://des.sqlite")
+	if in.Code != 0 || os.WriteFile(filepath.Join(cdir, "desired.hcl"), []byte(in.Stdout), 0o644) != nil {
+		return
+	}
+	o := runAtlas(e, cdir, nil, "schema", "apply", "--url", "sqlite://live2.sqlite", "--to", "file://desired.hcl", "--auto-approve")
+	if o.Code != 0 {
+		return // the HCL path is judged by C03; failures of the apply are reported by the SQL path above
+	}
+	got, err := cat(livep)
+	if err != nil {
+		return
+	}
+	if df := catDiff(got, want); df != "" {
+		add("failing-input", "cli-hcl-apply-does-not-converge", fmt.Sprintf("after `schema apply --to file://desired.hcl` (no dev database) the live database differs from the desired one: %s\noutput:\n%s\n%s", df, trunc(o.Stdout, 400), ctxText()), "Props.C01 CLI (no dev database)")
 	}
 }
